@@ -167,13 +167,15 @@ def _gen_case(rng, tier, g):
     nf = 4
     table = gen_table(rng, maxrows, nfields=nf, ragged=False,
                       profile=rng.choice(['default', 'mixedkeys', 'nonone']))
-    key = rng.choice(['a', 'a', ['a', 'b'], 'b', 0, ['a'], ('b',)])
+    key = rng.choice(['a', 'a', ['a', 'b'], 'b', 0, ['a'], ('b',), 1,
+                      [0, 1], (1,)])
     value = None
     if fn in ('lookup', 'lookupone'):
         # column d holds None and falsy values: "no value yet" must not be
         # confused with a stored None
+        # (and index 0 is a field selection, not "nothing selected")
         value = rng.choice([None, None, 'b', 'd', 'd', ['b', 'a'],
-                            ['d', 'c'], 1])
+                            ['d', 'c'], 1, 0, 0, [0], (0, 2)])
     return {'prop': PROP, 'machine': 'lookup', 'fn': fn, 'table': table,
             'table2': gen_table(rng, 4, nfields=nf, ragged=False),
             'key': key, 'value': value, 'strict': rng.random() < 0.5,
